@@ -11,13 +11,30 @@ SPEC = {
     "drivers": ["drv_c17"],
     "harness_bin": "c17",
     "spec_check": vlib.spec_via_driver("drv_c17"),
-    "nontrivial": lambda r, a: not r.startswith("new") or a.startswith("ok"),
+    "nontrivial": lambda r, a: not (r.startswith("new") or r.startswith("x")) or (r.startswith("new") and a.startswith("ok")),
     "rule": "all n^n index vectors for n<=5 (quick) / n<=6 (thorough) through Permutation::new, and for every accepted one "
             "inverse/apply_vec_into/apply_inverse_vec_into/apply_vec_in_place/matrix/matrix.dot/transform on a random integer payload; "
             "every operation again on the objects obtained by 1, 2 and 3 calls of inverse() (object histories: an inverse of an inverse must be the original, also through apply/matrix/transform); "
             "transform on column-major and transposed-memory-order matrices, apply_vec_into / apply_inverse_vec_into on strided, reversed and column views (answers must not depend on the memory layout); "
             "plus random index vectors up to length 64 with injected out-of-range and repeated elements. "
-            "Non-trivial = operation on an accepted permutation, or an accepted `new`; distinct = distinct request line.",
+            "STRUCTURED permutations for every n in 1..40 and n = 48, 64, 65, 100, 129 (thorough: every n <= 64, some up to 257): identity, "
+            "reversal, rotation by every k (divisors and non-divisors of n alike; for n > 40 a selection), block moves with block sizes 2..16 "
+            "whether or not the block size divides n (adjacent blocks swapped pairwise, first two blocks swapped + shuffled tail, whole blocks "
+            "in random order + shuffled remainder, first and last block swapped), fixed prefix + shuffled tail and shuffled prefix + fixed tail "
+            "at many cut points, products of disjoint cycles of chosen lengths (all-l for l = 2..7, one l-cycle, n, n-1+1, k+(n-k), 1+2+3+..., "
+            "random types; on consecutive and on shuffled labels), perfect out-/in-shuffles for even n, bit reversal, bit rotations, X-on-one-bit "
+            "and CX-like index maps for powers of two, and their inverses (explicitly for n <= 12; for every n through the derived-object "
+            "requests with an odd number of inverse() calls) - each through inverse, apply_vec_into, apply_inverse_vec_into, apply_vec_in_place, "
+            "matrix.dot, the strided/reversed/column views and the derived objects (pairwise distinct non-zero payload, so an unwritten or "
+            "doubly written element shows), and a sample of them through matrix/transform in all layouts. "
+            "FAULT INJECTION: for 60 (thorough: 600) permutations (rotations, reversals, partial and full shuffles, n = 1..40) mis-sized calls - "
+            "apply_vec_in_place on vectors of length 0, 1, n/2, n-2, n-1, n+1, n+3, 2n+1, and a sample of apply_vec_into / apply_inverse_vec_into "
+            "with mis-sized source and/or destination and transform on mis-shaped matrices - under catch_unwind on a fresh thread; the outcome "
+            "(panic, or the buffer afterwards) is predicted by the model (A) and skipped by (B) (outside the quantifier); then, for each such call, "
+            "every normal operation (all of the above incl. derived objects and layouts) on a DIFFERENT permutation object, each on a fresh "
+            "thread immediately after a repetition of the mis-sized call (request `@after <mis-sized call> @ <request>`: the line is the whole "
+            "history of its thread), compared with model (A) and reference (B), both of which ignore the history. "
+            "Non-trivial = operation on an accepted permutation with inputs of matching size, or an accepted `new`; distinct = distinct request line.",
     "exhaustive": False,
 }
 
